@@ -456,6 +456,159 @@ Qed.
 
 End Idempotence.
 
+(* ================================================================== sessions: call, edit in place, call again *)
+Lemma set_nth_id {A} : forall (l : list A) i x, nth_error l i = Some x -> set_nth i x l = l.
+Proof.
+  induction l as [|y l IH]; intros [|i] x H; simpl in *; try discriminate.
+  - inversion H. reflexivity.
+  - f_equal. apply IH. exact H.
+Qed.
+Lemma clear_hint_none a : ha_hint a = None -> clear_hint a = a.
+Proof. destruct a as [e fc sp h aty]. cbn [ha_hint clear_hint ha_el ha_fc ha_spin ha_at]. intros ->. reflexivity. Qed.
+
+Section Sessions.
+Context {F : Type} (o : Fops F).
+
+(* the trace of a session, spelled out: the molecule before a call is the one the preceding step left (the caller's
+   edit, or the result of the preceding call), and the result is `hadd` on THAT molecule -- nothing remembered
+   from earlier calls or from the molecule as it was before the edits enters *)
+Fixpoint chained (m : hmol F) (steps : list (sstep F)) (tr : list (hmol F * list nat * hmol F)) : Prop :=
+  match steps with
+  | [] => tr = []
+  | SEdit m' :: r => chained m' r tr
+  | SCall tg ws :: r =>
+      match tr with
+      | (b, ts, a) :: tr' => b = m /\ ts = targets_of tg m /\ hadd o m ts ws = Some a /\ chained a r tr'
+      | [] => False
+      end
+  end.
+
+Lemma run_session_chained : forall steps (m : hmol F) tr, run_session o m steps = Some tr -> chained m steps tr.
+Proof.
+  induction steps as [|[tg ws|m1] r IH]; intros m tr H; cbn [run_session chained] in *.
+  - inversion H. reflexivity.
+  - destruct (hadd o m (targets_of tg m) ws) as [m'|] eqn:E; [|discriminate].
+    destruct (run_session o m' r) as [tr'|] eqn:E2; [|discriminate].
+    inversion H; subst tr. repeat split; auto.
+  - apply IH. exact H.
+Qed.
+
+Lemma chained_calls : forall steps (m : hmol F) tr, chained m steps tr ->
+  Forall (fun c => exists ws, hadd o (fst (fst c)) (snd (fst c)) ws = Some (snd c)) tr.
+Proof.
+  induction steps as [|[tg ws|m1] r IH]; intros m tr H; cbn [chained] in H.
+  - subst tr. constructor.
+  - destruct tr as [|[[b ts] a] tr']; [contradiction|]. destruct H as [-> [-> [H1 H2]]].
+    constructor; [exists ws; exact H1 | eapply IH; exact H2].
+  - eapply IH. exact H.
+Qed.
+
+(* what every call of every session does, in terms of the molecule b it was called on (as the edits left it):
+   only hydrogens are appended, and each target receives n_added of the count computed from b's CURRENT element,
+   charge, spin, hint and bonds *)
+Definition call_ok (c : hmol F * list nat * hmol F) : Prop :=
+  let b := fst (fst c) in let ts := snd (fst c) in let a := snd c in
+  (forall t, In t ts -> t < length (hm_atoms b)) -> NoDup ts ->
+  exists A' nbs ps,
+    hm_atoms a = A' ++ repeat h_atom (length nbs) /\ map clear_hint A' = map clear_hint (hm_atoms b) /\
+    hm_bonds a = hm_bonds b ++ nbs /\
+    Forall (fun nb => In (hb_a1 nb) ts /\ nb = new_bond (hb_a1 nb) (hb_a2 nb)) nbs /\
+    hm_xyz a = hm_xyz b ++ ps /\ length ps = length nbs /\
+    forall t x, In t ts -> nth_error (hm_atoms b) t = Some x ->
+      exists k, count_of (hm_bonds b) t x = Some k /\ added_to t nbs = n_added k.
+
+Theorem session_counts : forall steps (m : hmol F) tr, run_session o m steps = Some tr -> Forall call_ok tr.
+Proof.
+  intros steps m tr H. apply run_session_chained, chained_calls in H.
+  eapply Forall_impl; [|exact H]. intros [[b ts] a] [ws Hc]. unfold call_ok. cbn [fst snd] in *.
+  intros Hlt Hnd.
+  destruct (hadd_main o b a ts ws Hlt Hnd Hc) as [A' [nbs [ps [P1 [P2 [P3 [P4 [P5 [P6 [P7 [P8 [P9 [P10 P11]]]]]]]]]]]]].
+  exists A', nbs, ps. repeat split; assumption.
+Qed.
+
+(* ---- calling again without an edit in between *)
+(* a call on targets whose count is 0 and that carry no hint returns the molecule itself *)
+Lemma hadd_zero : forall ts ws (m : hmol F), length ws = length ts ->
+  (forall t, In t ts -> exists a, nth_error (hm_atoms m) t = Some a /\ ha_hint a = None /\ count_of (hm_bonds m) t a = Some 0%Z) ->
+  hadd o m ts ws = Some m.
+Proof.
+  induction ts as [|t ts IH]; intros ws m Hl Hz; [reflexivity|].
+  destruct ws as [|w ws]; [discriminate|]. cbn [hadd].
+  destruct (Hz t (or_introl eq_refl)) as [a [Ha [Hh Hk]]].
+  assert (E : hadd_one o m t w = Some m).
+  { unfold hadd_one. rewrite Ha, Hk. cbn [Z.ltb Z.compare]. rewrite (clear_hint_none a Hh), (set_nth_id _ _ _ Ha).
+    destruct m; reflexivity. }
+  rewrite E. apply IH; [cbn [length] in Hl; lia|]. intros t' Ht'. apply Hz. right. exact Ht'.
+Qed.
+
+Lemma hadd_hint_free (m m' : hmol F) ts ws :
+  (forall t, In t ts -> t < length (hm_atoms m)) -> NoDup ts ->
+  (forall a, In a (hm_atoms m) -> ha_hint a = None) ->
+  hadd o m ts ws = Some m' -> forall a, In a (hm_atoms m') -> ha_hint a = None.
+Proof.
+  intros Hlt Hnd Hh H a Ha.
+  destruct (hadd_main o m m' ts ws Hlt Hnd H) as [A' [nbs [ps [P1 [P2 [P3 [P4 [P5 _]]]]]]]].
+  rewrite P1 in Ha. apply in_app_or in Ha. destruct Ha as [Ha|Ha].
+  - apply In_nth_error in Ha. destruct Ha as [j Hj].
+    destruct (in_dec Nat.eq_dec j ts) as [Hin|Hnin].
+    + rewrite (P5 j Hin) in Hj. destruct (nth_error (hm_atoms m) j); [|discriminate]. inversion Hj. reflexivity.
+    + rewrite (P4 j Hnin) in Hj. apply Hh. eapply nth_error_In. exact Hj.
+  - apply repeat_spec in Ha. subst a. reflexivity.
+Qed.
+
+Lemma hadd_order_nonneg (m m' : hmol F) ts ws :
+  (forall t, In t ts -> t < length (hm_atoms m)) -> NoDup ts ->
+  (forall b, In b (hm_bonds m) -> (0 <= order_of b)%Q) ->
+  hadd o m ts ws = Some m' -> forall b, In b (hm_bonds m') -> (0 <= order_of b)%Q.
+Proof.
+  intros Hlt Hnd Ho H b Hb.
+  destruct (hadd_main o m m' ts ws Hlt Hnd H) as [A' [nbs [ps [_ [_ [_ [_ [_ [P6 [_ [P8 _]]]]]]]]]]].
+  rewrite P6 in Hb. apply in_app_or in Hb. destruct Hb as [Hb|Hb]; [apply Ho; exact Hb|].
+  rewrite Forall_forall in P8. destruct (P8 b Hb) as [_ ->]. rewrite new_bond_order. discriminate.
+Qed.
+
+Lemma default_targets_lt (A : list hatom) t : In t (default_targets A) -> t < length A.
+Proof. intros Ht. apply indices_from_spec in Ht. lia. Qed.
+
+(* hint-free molecule, no negative bond order: after a whole-molecule call, calling again (any witnesses) returns
+   the very same molecule -- no atom, bond or row is appended and nothing is modified *)
+Theorem hadd_again_same (m m' : hmol F) ws ws' :
+  (forall a, In a (hm_atoms m) -> ha_hint a = None) ->
+  (forall b, In b (hm_bonds m) -> (0 <= order_of b)%Q) ->
+  hadd o m (default_targets (hm_atoms m)) ws = Some m' ->
+  length ws' = length (default_targets (hm_atoms m')) ->
+  hadd o m' (default_targets (hm_atoms m')) ws' = Some m'.
+Proof.
+  intros Hh Ho H Hl.
+  destruct (hadd_idempotent o m m' ws Hh Ho H) as [_ Hz].
+  apply hadd_zero; [exact Hl|]. intros t Ht.
+  pose proof (default_targets_lt _ _ Ht) as Hlt.
+  destruct (nth_error (hm_atoms m') t) as [a|] eqn:Ha; [|apply nth_error_None in Ha; lia].
+  exists a. split; [reflexivity|]. split.
+  - eapply (hadd_hint_free m m'); [apply default_targets_lt | apply indices_from_nodup | exact Hh | exact H |].
+    eapply nth_error_In. exact Ha.
+  - apply Hz; assumption.
+Qed.
+
+(* first a call on SOME atoms (any distinct targets), then the whole molecule, then the whole molecule again:
+   the third call returns the molecule the second one left *)
+Theorem subset_then_all_settles (m m1 m2 : hmol F) ts ws1 ws2 ws3 :
+  (forall t, In t ts -> t < length (hm_atoms m)) -> NoDup ts ->
+  (forall a, In a (hm_atoms m) -> ha_hint a = None) ->
+  (forall b, In b (hm_bonds m) -> (0 <= order_of b)%Q) ->
+  hadd o m ts ws1 = Some m1 ->
+  hadd o m1 (default_targets (hm_atoms m1)) ws2 = Some m2 ->
+  length ws3 = length (default_targets (hm_atoms m2)) ->
+  hadd o m2 (default_targets (hm_atoms m2)) ws3 = Some m2.
+Proof.
+  intros Hlt Hnd Hh Ho H1 H2 Hl.
+  apply (hadd_again_same m1 m2 ws2 ws3); auto.
+  - eapply hadd_hint_free; eauto.
+  - eapply hadd_order_nonneg; eauto.
+Qed.
+
+End Sessions.
+
 (* ================================================================== geometry over R *)
 From Coq Require Import Reals Nsatz Lra Psatz.
 From Molli Require Import Common.Field3R Proofs.Rot.
